@@ -10,9 +10,6 @@ for every content of the stacks below.
 -/
 namespace CV.Chain
 
-/-- the coder type after `change_precision::<q>()` -/
-def withP (c : Cfg) (q : Nat) : Cfg := { c with P := q }
-
 @[simp] theorem withP_W (c : Cfg) (q : Nat) : (withP c q).W = c.W := rfl
 @[simp] theorem withP_S (c : Cfg) (q : Nat) : (withP c q).S = c.S := rfl
 @[simp] theorem withP_P (c : Cfg) (q : Nat) : (withP c q).P = q := rfl
